@@ -288,7 +288,14 @@ impl Changeset {
 
     pub(crate) fn truncate(&mut self, len: usize) {
         debug!(target: "rustyline", "Changeset::truncate({})", len);
-        self.undos.truncate(len);
+        // the groups opened (closed) by the discarded markers are no longer open (closed)
+        for change in self.undos.drain(len.min(self.undos.len())..) {
+            match change {
+                Change::Begin => self.undo_group_level = self.undo_group_level.saturating_sub(1),
+                Change::End => self.undo_group_level += 1,
+                _ => {}
+            }
+        }
     }
 
     #[cfg(test)]
